@@ -130,6 +130,16 @@ def hygiene_hits(prop: str):
     return hits
 
 
+def declared_theorems(prop: str):
+    names = set()
+    for sub in ("Props", "Witness"):
+        f = os.path.join(LEAN, "St4sd", sub, prop + ".lean")
+        if os.path.exists(f):
+            txt = _strip_comments(open(f).read())
+            names.update(re.findall(r"^\s*(?:private\s+|protected\s+)?theorem\s+([^\s:({\[]+)", txt, flags=re.M))
+    return names
+
+
 def count_examples(prop: str) -> int:
     n = 0
     for sub in ("Props", "Witness"):
@@ -211,8 +221,13 @@ def build_and_audit(prop: str, tier: str):
             if rc3 != 0:
                 res["build_ok"] = False
                 res["failed"].append("audit failed: " + aout[-2000:])
+            declared = declared_theorems(prop)
             for m in re.finditer(r"AUDIT (\S+) :: \[(.*?)\]", aout):
                 name = m.group(1)
+                # only theorems written in the property's files count as obligations (not the equation
+                # lemmas / recursors Lean generates for local definitions)
+                if not any(name == d or name.endswith("." + d) for d in declared):
+                    continue
                 axs = [a.strip() for a in m.group(2).split(",") if a.strip()]
                 res["axioms"][name] = axs
                 res["theorems"].append(name)
@@ -337,6 +352,8 @@ class Ctx:
         self.disagreements = []   # (relation, case, model_out, impl_out)
         self.failures = []        # (what, case, detail)
         self.known_matched = {}
+        self._known = None
+        self.n_failures = 0
         self.rule = ""
         self.extra = {}
         self.assumptions = []
@@ -385,8 +402,28 @@ class Ctx:
             return False
         return True
 
+    def _match_known(self, what, case, detail):
+        if self._known is None:
+            self._known = load_known(self.prop)
+        for e in self._known:
+            fn = self.classifiers.get(e.get("classifier"))
+            try:
+                if fn is not None and fn(what, case, detail):
+                    return e
+            except Exception:
+                pass
+        return None
+
     def fail(self, what, case, detail=None):
-        """The property oracle failed on the real implementation for this case."""
+        """The property oracle failed on the real implementation for this case.
+
+        Failures accepted by the classifier of a `known` entry are only counted (they can never crowd
+        unmatched failures out of the bounded list)."""
+        self.n_failures += 1
+        hit = self._match_known(what, case, detail)
+        if hit is not None:
+            self.known_matched[hit["id"]] = self.known_matched.get(hit["id"], 0) + 1
+            return
         if len(self.failures) < 200:
             self.failures.append((what, case, detail))
         else:
@@ -403,21 +440,7 @@ class Ctx:
     def finish(self):
         known = load_known(self.prop)
         lines = []
-        unmatched = []
-        for what, case, detail in self.failures:
-            hit = None
-            for e in known:
-                fn = self.classifiers.get(e.get("classifier"))
-                try:
-                    if fn is not None and fn(what, case, detail):
-                        hit = e
-                        break
-                except Exception:
-                    pass
-            if hit is not None:
-                self.known_matched[hit["id"]] = self.known_matched.get(hit["id"], 0) + 1
-            else:
-                unmatched.append((what, case, detail))
+        unmatched = list(self.failures)
         for e in known:
             if e["id"] in self.known_matched:
                 lines.append("KNOWN-FINDING: property=%s %s (%s; %d failing cases this run)" % (
@@ -474,7 +497,7 @@ class Ctx:
             evaluations=self.evaluations, distinct_nontrivial=len(self.nontrivial),
             distinct=len(self.distinct), rule=self.rule, samples=self.samples[:5],
             branch_hits=self.tags, disagreements_checked=self.disagreements_checked,
-            disagreements=len(self.disagreements), oracle_failures=len(self.failures),
+            disagreements=len(self.disagreements), oracle_failures=self.n_failures,
             known_findings_matched=self.known_matched, exhaustive=self.exhaustive,
             theorems=sorted(build.get("axioms", {}).keys()),
             axioms_used=sorted({a for v in build.get("axioms", {}).values() for a in v}),
@@ -483,17 +506,20 @@ class Ctx:
         cov.update(self.extra)
         ev = dict(property_id=self.prop, tier=self.tier, seed=self.seed, level=self.level, coverage=cov,
                   assumptions=self.assumptions, wall_s=round(time.time() - self.t0, 2), violations=violations)
-        os.makedirs(os.path.join(VERIF, "evidence"), exist_ok=True)
-        tmp = os.path.join(VERIF, "evidence", ".%s.json.%d" % (self.prop, os.getpid()))
+        # VERIF_EVIDENCE_DIR: only used by tools/seedtest.py so that runs against seeded changes do not
+        # overwrite the evidence of the registered checks (which always write to /verif/evidence)
+        evdir = os.environ.get("VERIF_EVIDENCE_DIR") or os.path.join(VERIF, "evidence")
+        os.makedirs(evdir, exist_ok=True)
+        tmp = os.path.join(evdir, ".%s.json.%d" % (self.prop, os.getpid()))
         with open(tmp, "w") as fh:
             json.dump(ev, fh, indent=1, sort_keys=True, default=str)
-        os.replace(tmp, os.path.join(VERIF, "evidence", self.prop + ".json"))
+        os.replace(tmp, os.path.join(evdir, self.prop + ".json"))
         for l in lines:
             print(l)
         print("%s %s tier=%s seed=%s obligations=%d discharged=%d cases=%d nontrivial=%d disagreements=%d "
               "oracle_failures=%d known=%s wall=%.1fs" % (
                   "FAIL" if violations else "OK", self.prop, self.tier, self.seed, cov["obligations"],
                   cov["discharged"], self.evaluations, len(self.nontrivial), len(self.disagreements),
-                  len(self.failures), dict(self.known_matched), time.time() - self.t0))
+                  self.n_failures, dict(self.known_matched), time.time() - self.t0))
         sys.stdout.flush()
         return 1 if violations else 0
